@@ -4,6 +4,7 @@ package main
 import (
 	"os"
 
+	_ "verif/harness/engines/cl"
 	_ "verif/harness/engines/lockup"
 	"verif/harness/simchain"
 	"verif/harness/simcore"
